@@ -85,6 +85,19 @@ func (c *Ctx) norm(t string) string {
 			return c.norm(typeName(u))
 		}
 	}
+	// pkg.Named: a named integer type of an imported package (enum types such as
+	// cstypes.RoundStepType), resolved through the imports of the current file
+	if i := strings.Index(t, "."); i > 0 && c.f != nil && chainRe.MatchString(t) && strings.Count(t, ".") == 1 {
+		if builtin, dir, err := importOf(c.f, t[:i]); err == nil && builtin == "" {
+			if q, err := loadPkg(dir); err == nil {
+				if u, ok := q.types[t[i+1:]]; ok {
+					if _, isStruct := u.(*ast.StructType); !isStruct && len(q.files) > 0 {
+						return (&Ctx{p: q, f: q.files[0]}).norm(typeName(u))
+					}
+				}
+			}
+		}
+	}
 	return t
 }
 
@@ -233,6 +246,9 @@ func (c *Ctx) tr(e ast.Expr) (X, error) {
 			}
 			if t := c.norm(v.Typ); c.kind(t) == 's' || c.kind(t) == 'u' {
 				return X{s: lit(v.I), ty: t, c: v}, nil
+			}
+			if _, isCall := e.(*ast.CallExpr); v.Typ == "big" && !isCall { // a package-level *big.Int value
+				return X{s: lit(v.I), ty: "big", c: v}, nil
 			}
 		case 'b':
 			return X{s: fmt.Sprint(v.B), ty: "bool", c: v}, nil
@@ -387,6 +403,11 @@ func (c *Ctx) binop(e *ast.BinaryExpr, x, y X, ty string) (X, error) {
 		return X{s: fmt.Sprintf("(%s.wrapN %d (Int.tdiv %s %s))", pre, bits, xs, ys), ty: ty}, nil
 	case e.Op == token.REM:
 		return X{s: fmt.Sprintf("(%s.wrapN %d (Int.tmod %s %s))", pre, bits, xs, ys), ty: ty}, nil
+	case k == 'u' && (e.Op == token.AND || e.Op == token.OR || e.Op == token.XOR):
+		// bitwise operations on uint8/16/32 stay within the width: no wrap needed
+		xs0, _ := c.conv(e.X, x, ty)
+		ys0, _ := c.conv(e.Y, y, ty)
+		return X{s: fmt.Sprintf("(U64.%s %s %s)", name, xs0, ys0), ty: ty}, nil
 	}
 	return X{}, c.errf(e, "unsupported operation %s on %s", render(e), ty)
 }
@@ -431,8 +452,15 @@ func (c *Ctx) shift(e *ast.BinaryExpr, x, y X) (X, error) {
 	}
 	k := c.kind(ty)
 	_, bits, _ := c.p.intInfo(ty)
+	if k == 'u' && bits < 64 {
+		// uint8/16/32: x << n is (x * 2^n) mod 2^bits (0 for n >= bits), x >> n is x / 2^n
+		if e.Op == token.SHL {
+			return X{s: fmt.Sprintf("(U64.wrapN %d (Int.ofNat (U64.shl %s %s)))", bits, xs, cnt), ty: ty}, nil
+		}
+		return X{s: fmt.Sprintf("(U64.shr %s %s)", xs, cnt), ty: ty}, nil
+	}
 	if (k != 's' && k != 'u') || bits != 64 {
-		return X{}, c.errf(e, "shift on %s is not supported (64-bit integers only)", ty)
+		return X{}, c.errf(e, "shift on %s is not supported (signed types narrower than 64 bits)", ty)
 	}
 	return X{s: fmt.Sprintf("(%s.%s %s %s)", map[byte]string{'s': "I64", 'u': "U64"}[k], opNames[e.Op], xs, cnt), ty: ty}, nil
 }
